@@ -20,7 +20,7 @@ type siteIndex struct {
 	nodes   int
 }
 
-var faultKinds = []string{"delete", "retype", "null", "empty", "escape", "dangling", "cycle", "dupname", "num", "deep"}
+var faultKinds = []string{"delete", "retype", "null", "empty", "escape", "dangling", "cycle", "dupname", "num", "deep", "code-key", "code-null", "code-dup"}
 
 var numericKeywords = map[string]bool{
 	"minimum": true, "maximum": true, "exclusiveMinimum": true, "exclusiveMaximum": true, "multipleOf": true,
@@ -70,6 +70,12 @@ func collectSites(root *node) *siteIndex {
 			}
 			if len(path) == 2 && grandKey == "paths" {
 				add("escape", path, true)
+			}
+			// an entry of a `responses` mapping keyed by a status code
+			if grandKey == "responses" && codeLikeKey.MatchString(parentKey) {
+				add("code-key", path, true)
+				add("code-null", path, false)
+				add("code-dup", path, true)
 			}
 		}
 		if n.K == kStr && parentKey == "$ref" && parent != nil && parent.K == kMap {
@@ -166,6 +172,11 @@ func variants(root *node, fault string, s site) []string {
 	case "escape":
 		// the last three are well-formed (controls: must not fail because of the escape)
 		return []string{"%", "%0a%", "%zz", "%0a%zz", "%e4%b8", "pre:%", "pre:%0a%", "%%", "%2", "%2f%", "%2F", "%25", "%e4%b8%96"}
+	case "code-key":
+		// invalid or out-of-range response codes; the last two are valid controls
+		return []string{"600", "99", "1000", "0", "999", "-1", "99999999999999999999", "6XX", "0200", "20", "418", "2XX"}
+	case "code-null", "code-dup":
+		return []string{""}
 	case "dangling":
 		if n.K == kMap {
 			return []string{"replace-missing"}
@@ -270,6 +281,63 @@ func apply(base *node, fault, arg string, s site) (a applied, ok bool) {
 		a.Names = append(a.Names, n.S)
 	}
 	collectNames(n, keyOf(), &a.Names, 4000)
+
+	// Faults on response-code entries. The faulted entry is never left as the
+	// FIRST key of its mapping (in block YAML a mapping starts where its first
+	// key starts, which would hide a wrong key position): it is swapped with its
+	// successor, or a valid response is put in front of a lone entry.
+	if fault == "code-key" || fault == "code-null" || fault == "code-dup" {
+		if parent == nil || parent.K != kMap {
+			return a, false
+		}
+		parentPath := append([]int{}, s.Path[:len(s.Path)-1]...)
+		offFirst := func() {
+			if idx != 0 {
+				return
+			}
+			if len(parent.Kids) >= 2 {
+				parent.Keys[0], parent.Keys[1] = parent.Keys[1], parent.Keys[0]
+				parent.Kids[0], parent.Kids[1] = parent.Kids[1], parent.Kids[0]
+			} else {
+				front := "default"
+				if parent.Keys[0] == "default" {
+					front = "201"
+				}
+				parent.Keys = append([]string{front}, parent.Keys...)
+				parent.Kids = append([]*node{mapping("description", str("c11"))}, parent.Kids...)
+			}
+			idx = 1
+		}
+		switch fault {
+		case "code-key":
+			if parent.Keys[idx] == arg {
+				return a, false
+			}
+			for _, k := range parent.Keys {
+				if k == arg {
+					return a, false // would be a duplicate, that is code-dup's business
+				}
+			}
+			offFirst()
+			parent.Keys[idx] = arg
+			a.Names = append(a.Names, arg)
+		case "code-null":
+			if n.K == kNull {
+				return a, false
+			}
+			offFirst()
+			parent.Kids[idx] = null()
+		case "code-dup":
+			// the same code twice: a copy of the entry is appended (so the second occurrence is not first)
+			parent.Keys = append(parent.Keys, parent.Keys[idx])
+			parent.Kids = append(parent.Kids, n.clone())
+			a.Parts = append(a.Parts, append(append([]int{}, parentPath...), idx))
+			idx = len(parent.Kids) - 1
+		}
+		a.Fault = append(parentPath, idx)
+		a.Label = fault
+		return a, true
+	}
 
 	if s.Key {
 		if parent == nil || parent.K != kMap {
